@@ -968,7 +968,14 @@ pub fn f_names(seed: u64, contention: u64, abandon: bool) -> Plan {
                     11 | 12 => Op::GetSub { sub },
                     13 => Op::Publish { topic: t, msgs: msgs(&mut rng, 1, false) },
                     14 => Op::Pull { sub, max: 10, immediate: true },
-                    15 => Op::Ack { sub, sel: Sel { mine: false, pick: Pick::LastN(1), extra: vec!["77".into()], ..Sel::none() } },
+                    15 => {
+                        // (a third of them with an empty ID list: the name is still looked up)
+                        if rng.chance(330) {
+                            if rng.chance(500) { Op::Ack { sub, sel: Sel::none() } } else { Op::ModAck { sub, sel: Sel::none(), secs: 15 } }
+                        } else {
+                            Op::Ack { sub, sel: Sel { mine: false, pick: Pick::LastN(1), extra: vec!["77".into()], ..Sel::none() } }
+                        }
+                    }
                     16 => Op::ModAck { sub, sel: Sel { mine: false, pick: Pick::LastN(1), extra: vec!["78".into()], ..Sel::none() }, secs: 15 },
                     17 => Op::ListPage { kind: ListKind::Topics, parent: format!("projects/{}", rng.pick(&projects)), page_size: 1000, token: String::new() },
                     18 => Op::ListPage { kind: ListKind::Subs, parent: format!("projects/{}", rng.pick(&projects)), page_size: 1000, token: String::new() },
@@ -1702,6 +1709,20 @@ pub fn f_topicburst(seed: u64) -> Plan {
         dl += 1;
     }
     plan.phases.push(Phase { scripts: vec![setup], advance_us: 0, audit: false });
+    // in half of the runs consumers are waiting on the subscriptions when the burst comes
+    if rng.chance(500) {
+        let mut scripts = Vec::new();
+        let mut slot = 1u32;
+        for s in subs.iter() {
+            if rng.chance(500) {
+                scripts.push(vec![Step::new(Op::StreamOpen { slot, sub: s.clone(), max_msgs: 0, max_bytes: 0, policy: StreamPolicy::AckAll, window: 0, stall_after: 0, stall_us: 0 })]);
+            } else {
+                scripts.push(vec![Step::new(Op::PullBg { slot, sub: s.clone(), max: 1000 })]);
+            }
+            slot += 1;
+        }
+        plan.phases.push(Phase { scripts, advance_us: rng.below(100_000), audit: false });
+    }
     for _ in 0..rng.range(1, 2) {
         let mut scripts: Vec<Vec<Step>> = Vec::new();
         for _ in 0..rng.range(17, 34) {
@@ -1898,6 +1919,105 @@ pub fn f_timer(seed: u64) -> Plan {
         plan.phases.push(Phase { scripts: vec![vec![Step::new(Op::PullBg { slot: 2, sub: sub.clone(), max: 10 })]], advance_us: (moved.min(130) as u64) * 1_000_000, audit: true });
         plan.phases.push(Phase { scripts: vec![], advance_us: 0, audit: true });
     }
+    plan
+}
+
+// ------------------------------------------------------------------------------------------------
+// F-manytopics: a server that has created many topics in its lifetime (also by deleting and
+// re-creating names), with a dozen or more messages on an early one and a few on late ones:
+// message IDs stay unique across topics whatever their textual form.
+// ------------------------------------------------------------------------------------------------
+
+pub fn f_manytopics(seed: u64) -> Plan {
+    let mut rng = Rng::new(seed);
+    let mut plan = Plan { seed, family: "manytopics".into(), final_drain: true, health_probe: false, ..Default::default() };
+    plan.knobs = knobs(&mut rng, false, 0);
+    let n = rng.range(21, 34) as usize;
+    let mut setup = Vec::new();
+    let mut names: Vec<String> = Vec::new();
+    for i in 0..n {
+        // a few names are created, deleted and created again (each creation is a new topic)
+        let name = if i > 3 && rng.chance(150) { names[rng.below(names.len() as u64) as usize].clone() } else { topic_name("proj-g", i) };
+        if names.contains(&name) {
+            setup.push(Step::new(Op::DeleteTopic { topic: name.clone() }));
+        } else {
+            names.push(name.clone());
+        }
+        setup.push(Step::new(Op::CreateTopic { topic: name }));
+    }
+    plan.phases.push(Phase { scripts: vec![setup], advance_us: 0, audit: false });
+    // subscriptions on a handful of them: the earliest ones and the latest ones
+    let mut chosen: Vec<String> = vec![names[0].clone(), names[1].clone(), names[names.len() - 1].clone(), names[names.len() - 2].clone()];
+    chosen.push(rng.pick(&names).clone());
+    chosen.sort();
+    chosen.dedup();
+    let mut s = Vec::new();
+    for (j, t) in chosen.iter().enumerate() {
+        s.push(Step::new(Op::CreateSub { sub: sub_name("proj-g", 0, j), topic: t.clone(), ack_deadline: 10, push: None }));
+    }
+    plan.phases.push(Phase { scripts: vec![s], advance_us: 0, audit: false });
+    let mut scripts = Vec::new();
+    for t in chosen.iter() {
+        let mut s = Vec::new();
+        for _ in 0..rng.range(1, 3) {
+            s.push(Step::after(rng.below(2_000), Op::Publish { topic: t.clone(), msgs: msgs_r(&mut rng, 1, 9, false) }));
+        }
+        scripts.push(s);
+    }
+    plan.phases.push(Phase { scripts, advance_us: 0, audit: false });
+    plan.phases.push(Phase { scripts: (0..chosen.len()).map(|j| vec![Step::new(Op::DrainPull { sub: sub_name("proj-g", 0, j) })]).collect(), advance_us: 0, audit: false });
+    plan
+}
+
+// ------------------------------------------------------------------------------------------------
+// F-burst-edge: a burst of concurrent requests that fills a subscription's mailbox at the very
+// instant one of its leases runs out (the actor's expiry timer fires while requests are queued).
+// ------------------------------------------------------------------------------------------------
+
+pub fn f_burst_edge(seed: u64) -> Plan {
+    let mut rng = Rng::new(seed);
+    let mut plan = Plan { seed, family: "burst_edge".into(), final_drain: true, health_probe: true, ..Default::default() };
+    plan.knobs = knobs(&mut rng, false, 0);
+    let topic = topic_name("proj-u", 0);
+    let sub = sub_name("proj-u", 0, 0);
+    let dl = *rng.pick(&[10i32, 10, 12]);
+    plan.phases.push(Phase {
+        scripts: vec![vec![
+            Step::new(Op::CreateTopic { topic: topic.clone() }),
+            Step::new(Op::CreateSub { sub: sub.clone(), topic: topic.clone(), ack_deadline: dl, push: None }),
+            Step::new(Op::Publish { topic: topic.clone(), msgs: msgs_r(&mut rng, 1, 3, false) }),
+            Step::after(rng.below(300_000), Op::Pull { sub: sub.clone(), max: *rng.pick(&[1i32, 1000]), immediate: true }),
+        ]],
+        advance_us: 0,
+        audit: false,
+    });
+    let mut scripts: Vec<Vec<Step>> = Vec::new();
+    let n = rng.range(18, 64);
+    let base = *rng.pick(&[-1_000i64, -1_000, -500, 0, -2_000]);
+    for _ in 0..n {
+        let offset = if rng.chance(700) { base } else { base + *rng.pick(&[-1_000i64, 1_000, 0]) };
+        let op = match rng.below(5) {
+            0 | 1 => Op::Ack { sub: sub.clone(), sel: Sel { mine: false, pick: Pick::None, extra: vec!["616161".into()], ..Sel::none() } },
+            2 => Op::ModAck { sub: sub.clone(), sel: Sel { mine: false, pick: Pick::None, extra: vec!["616162".into()], ..Sel::none() }, secs: 10 },
+            3 => Op::Pull { sub: sub.clone(), max: 0, immediate: true },
+            _ => Op::GetSub { sub: sub.clone() },
+        };
+        scripts.push(vec![Step::new(Op::SleepUntilLeaseEnd { sub: sub.clone(), nth: 0, secs: dl, offset_us: offset, from_invoke: false }), Step::new(op)]);
+    }
+    if rng.chance(500) {
+        scripts.push(vec![Step::new(Op::PullBg { slot: 1, sub: sub.clone(), max: 10 })]);
+    }
+    plan.phases.push(Phase { scripts, advance_us: 0, audit: true });
+    // afterwards the subscription and its topic still answer
+    plan.phases.push(Phase {
+        scripts: vec![vec![
+            Step::new(Op::Publish { topic: topic.clone(), msgs: msgs(&mut rng, 1, false) }),
+            Step::new(Op::Pull { sub: sub.clone(), max: 1000, immediate: true }),
+            Step::new(Op::GetSub { sub: sub.clone() }),
+        ]],
+        advance_us: *rng.pick(&[0u64, 2_000_000]),
+        audit: true,
+    });
     plan
 }
 
